@@ -83,9 +83,69 @@ Definition render_csv_fn_defaults : list expr := [(XConst (PBool false)); (XCons
 (* beanquery.query_render.render_text (without its unused **kwargs) *)
 Definition render_text_fn : fdef :=
   {| f_params := ["columns"; "rows"; "dcontext"; "file"; "expand"; "boxed"; "spaced"; "listsep"; "nullvalue"; "narrow"; "unicode"];
-     f_body := [(SAssign (TName "ctx") (XPrim "beanquery.query_render.RenderContext:expand,spaced,listsep,null" [(XName "dcontext"); (XName "expand"); (XName "spaced"); (XName "listsep"); (XName "nullvalue")])); (SAssign (TName "renderers") (XListComp (XCall (XConst (PRef 0)) [(XAttr (XName "column") "datatype"); (XName "ctx")] None) "column" (XName "columns") None)); (SAssign (TName "headers") (XListComp (XAttr (XName "column") "name") "column" (XName "columns") None)); (SAssign (TName "alignment") (XListComp (XAttr (XName "renderer") "align") "renderer" (XName "renderers") None)); (SFor "row" (XName "rows") [(SAssign (TName "$new") (XList [])); (SForUnpack ["value"; "renderer"] (XPrim "builtins.zip" [(XName "row"); (XName "renderers")]) [(SIf (XCompare (XName "value") [(CIsNot, (XConst PNone))]) [(SExpr (XMethod (TName "renderer") "update" [(XName "value")]))] []); (SExpr (XMethod (TName "$new") "append" [(XName "renderer")]))]); (SAssign (TName "renderers") (XBin OAdd (XName "$new") (XSlice (XName "renderers") (Some (XLen (XName "$new"))) None)))]); (SAssign (TName "widths") (XListComp (XPrim "builtins.max" [(XConst (PInt 1)); (XBoolOp false [(XName "narrow"); (XLen (XIndex (XName "$item") (XConst (PInt 0))))]); (XLen (XName "nullvalue")); (XCallMethod (XIndex (XName "$item") (XConst (PInt 1))) "prepare" [])]) "$item" (XPrim "builtins.zip" [(XName "headers"); (XName "renderers")]) None)); (SIf (XPrim "truth" [(XName "boxed")]) [(SIf (XPrim "truth" [(XName "unicode")]) [(SAssign (TName "frmt") (XConst (PV (VStr [9474; 32; 123; 125; 32; 9474; 10])))); (SAssign (TName "colsep") (XConst (PV (VStr [32; 9474; 32])))); (SAssign (TName "lines") (XListComp (XCallMethod (XConst (PV (VStr []))) "rjust" [(XName "width"); (XConst (PV (VStr [9472])))]) "width" (XName "widths") None)); (SAssign (TName "top") (XCallMethod (XConst (PV (VStr [9484; 9472; 123; 125; 9472; 9488; 10]))) "format" [(XCallMethod (XConst (PV (VStr [9472; 9516; 9472]))) "join" [(XName "lines")])])); (SAssign (TName "hline") (XCallMethod (XConst (PV (VStr [9500; 9472; 123; 125; 9472; 9508; 10]))) "format" [(XCallMethod (XConst (PV (VStr [9472; 9532; 9472]))) "join" [(XName "lines")])])); (SAssign (TName "bottom") (XCallMethod (XConst (PV (VStr [9492; 9472; 123; 125; 9472; 9496; 10]))) "format" [(XCallMethod (XConst (PV (VStr [9472; 9524; 9472]))) "join" [(XName "lines")])]))] [(SAssign (TName "frmt") (XConst (PV (VStr [124; 32; 123; 125; 32; 124; 10])))); (SAssign (TName "colsep") (XConst (PV (VStr [32; 124; 32])))); (SAssign (TName "top") (XCallMethod (XConst (PV (VStr [43; 45; 123; 125; 45; 43; 10]))) "format" [(XCallMethod (XConst (PV (VStr [45; 43; 45]))) "join" [(XListComp (XCallMethod (XConst (PV (VStr []))) "rjust" [(XName "width"); (XConst (PV (VStr [45])))]) "width" (XName "widths") None)])])); (SAssign (TName "hline") (XName "top")); (SAssign (TName "bottom") (XName "top"))])] [(SAssign (TName "frmt") (XConst (PV (VStr [123; 125; 10])))); (SAssign (TName "colsep") (XConst (PV (VStr [32; 32])))); (SAssign (TName "top") (XConst (PV (VStr [])))); (SAssign (TName "bottom") (XName "top")); (SAssign (TName "hline") (XCallMethod (XConst (PV (VStr [123; 125; 10]))) "format" [(XCallMethod (XName "colsep") "join" [(XListComp (XCallMethod (XConst (PV (VStr []))) "rjust" [(XName "width"); (XIfExp (XPrim "truth" [(XName "unicode")]) (XConst (PV (VStr [9472]))) (XConst (PV (VStr [45]))))]) "width" (XName "widths") None)])]))]); (SExpr (XMethod (TName "file") "write" [(XName "top")])); (SExpr (XMethod (TName "file") "write" [(XCallMethod (XName "frmt") "format" [(XCallMethod (XName "colsep") "join" [(XListComp (XCallMethod (XSlice (XIndex (XName "$item") (XConst (PInt 0))) None (Some (XIndex (XName "$item") (XConst (PInt 1))))) "center" [(XIndex (XName "$item") (XConst (PInt 1)))]) "$item" (XPrim "builtins.zip" [(XName "headers"); (XName "widths")]) None)])])])); (SExpr (XMethod (TName "file") "write" [(XName "hline")])); (SFor "row" (XCall (XConst (PRef 1)) [(XName "rows"); (XName "renderers"); (XName "ctx")] None) [(SExpr (XMethod (TName "file") "write" [(XCallMethod (XName "frmt") "format" [(XCallMethod (XName "colsep") "join" [(XListComp (XIfExp (XCompare (XIndex (XName "$item") (XConst (PInt 2))) [(CEq, (XConst (PRef 2)))]) (XCallMethod (XIndex (XName "$item") (XConst (PInt 0))) "ljust" [(XIndex (XName "$item") (XConst (PInt 1)))]) (XCallMethod (XIndex (XName "$item") (XConst (PInt 0))) "rjust" [(XIndex (XName "$item") (XConst (PInt 1)))])) "$item" (XPrim "builtins.zip" [(XName "row"); (XName "widths"); (XName "alignment")]) None)])])]))]); (SExpr (XMethod (TName "file") "write" [(XName "bottom")]))];
+     f_body := [(SAssign (TName "ctx") (XPrim "beanquery.query_render.RenderContext:expand,spaced,listsep,null" [(XName "dcontext"); (XName "expand"); (XName "spaced"); (XName "listsep"); (XName "nullvalue")])); (SAssign (TName "renderers") (XListComp (XCall (XConst (PRef 0)) [(XAttr (XName "column") "datatype"); (XName "ctx")] None) "column" (XName "columns") None)); (SAssign (TName "headers") (XListComp (XAttr (XName "column") "name") "column" (XName "columns") None)); (SAssign (TName "alignment") (XListComp (XAttr (XName "renderer") "align") "renderer" (XName "renderers") None)); (SFor "row" (XName "rows") [(SAssign (TName "$new") (XList [])); (SForUnpack ["value"; "renderer"] (XPrim "builtins.zip" [(XName "row"); (XName "renderers")]) [(SIf (XCompare (XName "value") [(CIsNot, (XConst PNone))]) [(SExpr (XMethod (TName "renderer") "update" [(XName "value")]))] []); (SExpr (XMethod (TName "$new") "append" [(XName "renderer")]))]); (SAssign (TName "renderers") (XBin OAdd (XName "$new") (XSlice (XName "renderers") (Some (XLen (XName "$new"))) None)))]); (SAssign (TName "widths") (XListComp (XPrim "builtins.max" [(XConst (PInt 1)); (XBoolOp false [(XName "narrow"); (XLen (XIndex (XName "$item") (XConst (PInt 0))))]); (XLen (XName "nullvalue")); (XCallMethod (XIndex (XName "$item") (XConst (PInt 1))) "prepare" [])]) "$item" (XPrim "builtins.zip" [(XName "headers"); (XName "renderers")]) None)); (SIf (XPrim "truth" [(XName "boxed")]) [(SIf (XPrim "truth" [(XName "unicode")]) [(SAssign (TName "frmt") (XConst (PV (VStr [9474; 32; 123; 125; 32; 9474; 10])))); (SAssign (TName "colsep") (XConst (PV (VStr [32; 9474; 32])))); (SAssign (TName "lines") (XListComp (XCallMethod (XConst (PV (VStr []))) "rjust" [(XName "width"); (XConst (PV (VStr [9472])))]) "width" (XName "widths") None)); (SAssign (TName "top") (XCallMethod (XConst (PV (VStr [9484; 9472; 123; 125; 9472; 9488; 10]))) "format" [(XCallMethod (XConst (PV (VStr [9472; 9516; 9472]))) "join" [(XName "lines")])])); (SAssign (TName "hline") (XCallMethod (XConst (PV (VStr [9500; 9472; 123; 125; 9472; 9508; 10]))) "format" [(XCallMethod (XConst (PV (VStr [9472; 9532; 9472]))) "join" [(XName "lines")])])); (SAssign (TName "bottom") (XCallMethod (XConst (PV (VStr [9492; 9472; 123; 125; 9472; 9496; 10]))) "format" [(XCallMethod (XConst (PV (VStr [9472; 9524; 9472]))) "join" [(XName "lines")])]))] [(SAssign (TName "frmt") (XConst (PV (VStr [124; 32; 123; 125; 32; 124; 10])))); (SAssign (TName "colsep") (XConst (PV (VStr [32; 124; 32])))); (SAssign (TName "top") (XCallMethod (XConst (PV (VStr [43; 45; 123; 125; 45; 43; 10]))) "format" [(XCallMethod (XConst (PV (VStr [45; 43; 45]))) "join" [(XListComp (XCallMethod (XConst (PV (VStr []))) "rjust" [(XName "width"); (XConst (PV (VStr [45])))]) "width" (XName "widths") None)])])); (SAssign (TName "hline") (XName "top")); (SAssign (TName "bottom") (XName "top"))])] [(SAssign (TName "frmt") (XConst (PV (VStr [123; 125; 10])))); (SAssign (TName "colsep") (XConst (PV (VStr [32; 32])))); (SAssign (TName "top") (XConst (PV (VStr [])))); (SAssign (TName "bottom") (XName "top")); (SAssign (TName "hline") (XCallMethod (XConst (PV (VStr [123; 125; 10]))) "format" [(XCallMethod (XName "colsep") "join" [(XListComp (XCallMethod (XConst (PV (VStr []))) "rjust" [(XName "width"); (XIfExp (XPrim "truth" [(XName "unicode")]) (XConst (PV (VStr [9472]))) (XConst (PV (VStr [45]))))]) "width" (XName "widths") None)])]))]); (SExpr (XMethod (TName "file") "write" [(XName "top")])); (SExpr (XMethod (TName "file") "write" [(XCallMethod (XName "frmt") "format" [(XCallMethod (XName "colsep") "join" [(XListComp (XCallMethod (XSlice (XIndex (XName "$item") (XConst (PInt 0))) None (Some (XIndex (XName "$item") (XConst (PInt 1))))) "center" [(XIndex (XName "$item") (XConst (PInt 1)))]) "$item" (XPrim "builtins.zip" [(XName "headers"); (XName "widths")]) None)])])])); (SExpr (XMethod (TName "file") "write" [(XName "hline")])); (SFor "row" (XCall (XConst (PRef 1)) [(XName "rows"); (XName "renderers"); (XName "ctx")] None) [(SExpr (XMethod (TName "file") "write" [(XCallMethod (XName "frmt") "format" [(XCallMethod (XName "colsep") "join" [(XListComp (XIfExp (XCompare (XIndex (XName "$item") (XConst (PInt 2))) [(CEq, (XConst (PInt 0)))]) (XCallMethod (XIndex (XName "$item") (XConst (PInt 0))) "ljust" [(XIndex (XName "$item") (XConst (PInt 1)))]) (XCallMethod (XIndex (XName "$item") (XConst (PInt 0))) "rjust" [(XIndex (XName "$item") (XConst (PInt 1)))])) "$item" (XPrim "builtins.zip" [(XName "row"); (XName "widths"); (XName "alignment")]) None)])])]))]); (SExpr (XMethod (TName "file") "write" [(XName "bottom")]))];
      f_gen := false |}.
 Definition render_text_fn_defaults : list expr := [(XConst (PBool false)); (XConst (PBool false)); (XConst (PBool false)); (XConst (PV (VStr [32; 32]))); (XConst (PV (VStr []))); (XConst (PBool true)); (XConst (PBool false))].
 
+(* beanquery.query_render.ColumnRenderer.__init__ *)
+Definition render_base_init : fdef :=
+  {| f_params := ["self"; "ctx"];
+     f_body := [(SAssign (TSelf "maxwidth") (XConst (PInt 0))); (SAssign (TSelf "prepared") (XConst (PBool false)))];
+     f_gen := false |}.
+
+(* beanquery.query_render.DecimalRenderer.__init__ without its first statement `super().__init__(ctx)` *)
+Definition render_decimal_init_tail : fdef :=
+  {| f_params := ["self"; "ctx"];
+     f_body := [(SAssign (TSelf "nintegral") (XConst (PInt 0))); (SAssign (TSelf "nfractional") (XConst (PInt 0)))];
+     f_gen := false |}.
+
+(* beanquery.query_render.AmountRenderer.__init__ without its first statement `super().__init__(ctx)` *)
+Definition render_amount_init_tail : fdef :=
+  {| f_params := ["self"; "ctx"];
+     f_body := [(SAssign (TSelf "quantize") (XAttr (XAttr (XName "ctx") "dcontext") "quantize")); (SAssign (TSelf "dcontext") (XPrim "beancount.core.display_context.DisplayContext" [])); (SAssign (TSelf "curwidth") (XConst (PInt 0)))];
+     f_gen := false |}.
+
+(* beanquery.query_render.AmountRenderer.update *)
+Definition render_amount_update : fdef :=
+  {| f_params := ["self"; "value"];
+     f_body := [(SIf (XCompare (XName "value") [(CIsNot, (XConst PNone))]) [(SAssign (TName "number") (XCall (XAttr (XName "self") "quantize") [(XAttr (XName "value") "number"); (XAttr (XName "value") "currency")] None)); (SExpr (XMethod (TSelf "dcontext") "update" [(XName "number"); (XAttr (XName "value") "currency")])); (SAssign (TSelf "curwidth") (XPrim "builtins.max" [(XAttr (XName "self") "curwidth"); (XLen (XAttr (XName "value") "currency"))]))] [])];
+     f_gen := false |}.
+
+(* beanquery.query_render.AmountRenderer.prepare without its last statement `return super().prepare()` *)
+Definition render_amount_prepare_head : fdef :=
+  {| f_params := ["self"];
+     f_body := [(SAssign (TSelf "func") (XCallMethod (XAttr (XName "self") "dcontext") "build" [(XConst (PInt 2)); (XConst (PInt 2))])); (SAssign (TName "zero") (XPrim "decimal.Decimal" [])); (SFor "commodity" (XAttr (XAttr (XName "self") "dcontext") "ccontexts") [(SIf (XCompare (XName "commodity") [(CNe, (XConst (PV (VStr [95; 95; 100; 101; 102; 97; 117; 108; 116; 95; 95]))))]) [(SAssign (TSelf "maxwidth") (XPrim "builtins.max" [(XAttr (XName "self") "maxwidth"); (XBin OAdd (XBin OAdd (XLen (XPrim "apply" [(XAttr (XName "self") "func"); (XName "zero"); (XName "commodity")])) (XConst (PInt 1))) (XAttr (XName "self") "curwidth"))]))] [])])];
+     f_gen := false |}.
+
+(* beanquery.query_render.AmountRenderer.format *)
+Definition render_amount_format : fdef :=
+  {| f_params := ["self"; "value"];
+     f_body := [(SReturn (Some (XPrim "fstr" [(XPrim "format:plain" [(XPrim "apply" [(XAttr (XName "self") "func"); (XAttr (XName "value") "number"); (XAttr (XName "value") "currency")])]); (XConst (PV (VStr [32]))); (XPrim "format:<" [(XAttr (XName "value") "currency"); (XAttr (XName "self") "curwidth")])])))];
+     f_gen := false |}.
+
+(* beanquery.query_render.PositionRenderer.__init__ without its first statement `super().__init__(ctx)` *)
+Definition render_position_init_tail : fdef :=
+  {| f_params := ["self"; "ctx"];
+     f_body := [(SAssign (TSelf "units_renderer") (XCall (XConst (PRef 2)) [(XName "ctx")] None)); (SAssign (TSelf "cost_renderer") (XCall (XConst (PRef 2)) [(XName "ctx")] None))];
+     f_gen := false |}.
+
+(* beanquery.query_render.PositionRenderer.update *)
+Definition render_position_update : fdef :=
+  {| f_params := ["self"; "value"];
+     f_body := [(SExpr (XMethod (TSelf "units_renderer") "update" [(XAttr (XName "value") "units")])); (SExpr (XMethod (TSelf "cost_renderer") "update" [(XAttr (XName "value") "cost")]))];
+     f_gen := false |}.
+
+(* beanquery.query_render.PositionRenderer.prepare without its last statement `return super().prepare()` *)
+Definition render_position_prepare_head : fdef :=
+  {| f_params := ["self"];
+     f_body := [(SAssign (TName "units_width") (XMethod (TSelf "units_renderer") "prepare" [])); (SAssign (TName "cost_width") (XMethod (TSelf "cost_renderer") "prepare" [])); (SAssign (TSelf "maxwidth") (XBin OAdd (XBin OAdd (XName "units_width") (XName "cost_width")) (XIfExp (XCompare (XName "cost_width") [(CGt, (XConst (PInt 0)))]) (XConst (PInt 3)) (XConst (PInt 0)))))];
+     f_gen := false |}.
+
+(* beanquery.query_render.PositionRenderer.format *)
+Definition render_position_format : fdef :=
+  {| f_params := ["self"; "value"];
+     f_body := [(SAssign (TName "units") (XCallMethod (XAttr (XName "self") "units_renderer") "format" [(XAttr (XName "value") "units")])); (SIf (XCompare (XAttr (XName "value") "cost") [(CIs, (XConst PNone))]) [(SReturn (Some (XCallMethod (XName "units") "ljust" [(XAttr (XName "self") "maxwidth")])))] []); (SAssign (TName "cost") (XCallMethod (XAttr (XName "self") "cost_renderer") "format" [(XAttr (XName "value") "cost")])); (SReturn (Some (XPrim "fstr" [(XPrim "format:plain" [(XName "units")]); (XConst (PV (VStr [32; 123]))); (XPrim "format:plain" [(XName "cost")]); (XConst (PV (VStr [125])))])))];
+     f_gen := false |}.
+
 Definition refs : list (nat * string) :=
-  [(0%nat, "beanquery.query_render._get_renderer"); (1%nat, "beanquery.query_render.render_rows"); (2%nat, "Align.LEFT")].
+  [(0%nat, "beanquery.query_render._get_renderer"); (1%nat, "beanquery.query_render.render_rows"); (2%nat, "beanquery.query_render.AmountRenderer")].
